@@ -294,7 +294,7 @@ pub struct C20;
 fn post_verdict(kind: &str, terminal: &str, post: &[Ev]) -> Result<(), Verdict> {
     for (k, e) in post.iter().enumerate() {
         match e {
-            Ev::Data(n) => return Err(Verdict::viol(format!("data-after-{}|{}", terminal, kind), format!("poll {} after the terminal event ({}) yielded {} bytes of data", k + 1, terminal, n))),
+            Ev::Data(n) if *n > 0 => return Err(Verdict::viol(format!("data-after-{}|{}", terminal, kind), format!("poll {} after the terminal event ({}) yielded {} bytes of data", k + 1, terminal, n))),
             Ev::Panic(p) => return Err(Verdict::viol(format!("panic-after-{}|{}@{}", terminal, kind, norm_loc(p)), format!("poll {} after the terminal event ({}) panicked: {}", k + 1, terminal, p))),
             Ev::OtherFrame => return Err(Verdict::viol(format!("frame-after-{}|{}", terminal, kind), "non-data frame after the terminal event")),
             _ => {}
